@@ -127,18 +127,35 @@ struct StoreSession : public vw::Session {
     size_t p = h.find_first_not_of('0');
     return " cw=" + (p == std::string::npos ? std::string("0") : h.substr(p));
   }
+  // Status word for the comparison of two RUNNING instances (C09 twins): the validation-level memo
+  // BLOCK_CONNECTED (2) .. BLOCK_CAN_BE_APPLIED (4) of a VALID VBK/BTC block that is NOT on the best chain is
+  // normalised to 2. BaseBlockTree::doUpdateTips() runs fork resolution over `tips_`, an
+  // std::unordered_set<index_t*>: the iteration order follows the addresses of the block indices and differs
+  // between any two instances. When the best SP branch is removed (its ALT blocks are unapplied), a stale valid
+  // branch that is visited BEFORE the eventual winner is applied once (raiseValidity -> CAN_BE_APPLIED) and then
+  // loses; visited after the winner it is compared without being applied and stays CONNECTED. Best chains, flags,
+  // payloads and all answers are equal; only this memo differs. Everything else (failed flags, ACTIVE, levels 0/1,
+  // every ALT block) stays exact.
+  template <typename Index>
+  static uint32_t twinStatus(const Index& i) {
+    uint32_t st = i.getStatus();
+    uint32_t lvl = st & BLOCK_VALID_MASK;
+    if (!(st & BLOCK_ACTIVE) && !(st & BLOCK_FAILED_MASK) && lvl >= BLOCK_CONNECTED && lvl <= BLOCK_CAN_BE_APPLIED)
+      st = (st & ~(uint32_t)BLOCK_VALID_MASK) | BLOCK_CONNECTED;
+    return st;
+  }
   std::string vbkLine(const BlockIndex<VbkBlock>& i, bool withMarks, bool deref, bool omitBop = false,
-                      bool work = false) {
+                      bool work = false, bool twin = false) {
     return "VBK " + reg->nameOf(i.getHash()) + " h=" + std::to_string(i.getHeight()) + " st=" +
-           std::to_string(i.getStatus()) + (withMarks ? marks(i) : "") + " rc=" + std::to_string(i.refCount()) +
+           std::to_string(twin ? twinStatus(i) : i.getStatus()) + (withMarks ? marks(i) : "") + " rc=" + std::to_string(i.refCount()) +
            vtbIds(i) + ceOnly(i) + byOnly(i) + bopOnly(i, deref, omitBop) + (work ? workOf(i) : "");
   }
   std::string btcLine(const BlockIndex<BtcBlock>& i, bool withMarks, bool deref, bool omitBop = false,
-                      bool work = false) {
+                      bool work = false, bool twin = false) {
     auto refs = i.getRefs();
     std::sort(refs.begin(), refs.end());
     std::string s = "BTC " + reg->nameOf(i.getHash()) + " h=" + std::to_string(i.getHeight()) + " st=" +
-                    std::to_string(i.getStatus()) + (withMarks ? marks(i) : "") + " refs=[";
+                    std::to_string(twin ? twinStatus(i) : i.getStatus()) + (withMarks ? marks(i) : "") + " refs=[";
     for (auto x : refs) s += std::to_string(x) + ",";
     return s + "]" + bopOnly(i, deref, omitBop) + (work ? workOf(i) : "");
   }
@@ -382,12 +399,12 @@ struct StoreSession : public vw::Session {
     for (auto* i : F.tree.vbk().getBlocks()) {
       auto* j = N.tree.vbk().getBlockIndex(i->getHash());
       if (j == nullptr) { cmpl(vbkLine(*i, false, false, true), "<missing>"); continue; }
-      cmpl(vbkLine(*i, false, false, true), vbkLine(*j, false, false, true));
+      cmpl(vbkLine(*i, false, false, true, false, true), vbkLine(*j, false, false, true, false, true));
     }
     for (auto* i : F.tree.btc().getBlocks()) {
       auto* j = N.tree.btc().getBlockIndex(i->getHash());
       if (j == nullptr) { cmpl(btcLine(*i, false, false, true), "<missing>"); continue; }
-      cmpl(btcLine(*i, false, false, true), btcLine(*j, false, false, true));
+      cmpl(btcLine(*i, false, false, true, false, true), btcLine(*j, false, false, true, false, true));
     }
     cmpl("VBK best " + reg->nameOf(F.tree.vbk().getBestChain().tip()->getHash()),
          "VBK best " + reg->nameOf(N.tree.vbk().getBestChain().tip()->getHash()));
